@@ -32,7 +32,8 @@ EVAL_SRC = ['1 + 2', '[1,\n2]\n3', '1 $ 2', 'a = 1\nb = 2\nc = = 3', '(1', '1 +'
             'a = 1 +\n2', '- 1', '[7]', '10 % 20', 'keys({2.5: "a"})', 'keys({2.50: "b"})', '{1: 1, 1.0: 2}', '1 / 3', '2 ** 0.5',
             'round(1 / 0.0000000000000000000000000000000000000001 ** 99999999)', '0 ** 0', '(0 - 8) ** 0.5', '(0 - 2) ** 1.5 + 1', 'round(x9, 2)', 'round(float("inf"))', 'round(float("nan"), 2)', 'floor(float("-inf"))', 'int(float("nan"))', '10 ** 1000000000', 'len = 7; len']
 NAMES_SRC = ['price * qty + fee(region)', 'alpha + beta ? gamma', 'a\n(b,\nc', '"s" # x', '%a b% . c ( d']
-NAMES_MODES = ['full', 'abandon1', 'unstarted']
+NAMES_MODES = ['full', 'abandon1', 'unstarted', 'deferred']
+OMITTED_SRC = ['x = 1', 'x', 'x += 1', 'len = 7; len', 'len("ab")', 'u = 3', 'u', 'f = v => v + 1', 'f(1)']
 NAMES_KINDS = ['fresh', 'P', 'Q', 'none']
 BATTERY = [('parse', 'a\nb'), ('eval', '[1,\n2] + [3]', 'fresh', None), ('names', 'p + q\nr', 'full'),
            ('eval', 'x = 2; x * y', 'B', None), ('parse', '{"k": (1,\n2)}\nz')]
@@ -49,6 +50,8 @@ def actions():
     for s in NAMES_SRC:
         for m in NAMES_MODES:
             acts.append(('names', s, m))
+    for s in OMITTED_SRC:
+        acts.append(('eval', s, 'omitted', None))     # eval(expr) with the names argument left out altogether
     return acts
 
 
@@ -141,6 +144,19 @@ def parser_state(p):
     return repr(out)
 
 
+def _fn_state(mod, name, f):
+    out = []
+    for i, d in enumerate(f.__defaults__ or ()):
+        if isinstance(d, (dict, list, set)):
+            out.append((mod, f'{name}:default{i}', repr(dump_obj(d))[:300]))
+    for dk, d in sorted((f.__kwdefaults__ or {}).items()):
+        if isinstance(d, (dict, list, set)):
+            out.append((mod, f'{name}:kwdefault:{dk}', repr(dump_obj(d))[:300]))
+    if f.__dict__:
+        out.append((mod, f'{name}:attrs', repr(dump_obj({a: b for a, b in f.__dict__.items() if a != '__wrapped__'}))[:300]))
+    return out
+
+
 def module_state():
     """Fingerprint of everything that outlives a call OUTSIDE the parser object: module-level containers and memo caches
     of the smartquery modules, and the thread's decimal context (flags excluded: arithmetic sets them legitimately)."""
@@ -164,6 +180,18 @@ def module_state():
                 out.append((name, k, 'cache', v.cache_info().currsize))
             elif isinstance(v, (int, float, str, bool, type(None))):
                 out.append((name, k, repr(v)))
+            # mutable default arguments / function attributes / class-level containers: state shared by every parser instance
+            if isinstance(v, types.FunctionType) and v.__module__ == name:
+                out.extend(_fn_state(name, k, v))
+            elif isinstance(v, type) and v.__module__ == name:
+                for ck in sorted(vars(v)):
+                    cv = vars(v)[ck]
+                    if isinstance(cv, (staticmethod, classmethod)):
+                        cv = cv.__func__
+                    if isinstance(cv, types.FunctionType):
+                        out.extend(_fn_state(name, f'{k}.{ck}', cv))
+                    elif isinstance(cv, (dict, list, set)) and not ck.startswith('__'):
+                        out.append((name, f'{k}.{ck}', repr(dump_obj(cv))[:300]))
     c = decimal.getcontext()
     out.append(('decimal', c.prec, c.rounding, c.Emin, c.Emax, c.capitals, c.clamp, tuple(sorted(str(t) for t, on in c.traps.items() if on))))
     return out
@@ -174,13 +202,30 @@ class World:
         self.template = template
         self.shared = shared_parser       # world A: one parser; world B: None (fresh clone per call)
         self.pers = fresh_persistent()
+        self.pending = []                 # list_names results obtained but not yet consumed ('deferred')
+
+    def drain(self):
+        out = []
+        for g in self.pending:
+            try:
+                out.append(('ok', list(g)))
+            except Exception as e:  # noqa
+                out.append(('exc', type(e).__name__, str(e)))
+        self.pending = []
+        return tuple(out)
+
+    def call(self, act):
+        r = self._call(act)
+        if self.pending and not (act[0] == 'names' and act[2] == 'deferred'):
+            r = r + (('consumed-afterwards', self.drain()),)
+        return r
 
     def parser(self):
         if self.shared is not None:
             return self.shared
         return clone.pristine(self.template)
 
-    def call(self, act):
+    def _call(self, act):
         api = snapshot.api()
         p = self.parser()
         kind = act[0]
@@ -189,6 +234,8 @@ class World:
                 return ('ok', show(p.parse(act[1])))
             if kind == 'eval':
                 nk = act[2]
+                if nk == 'omitted':
+                    return ('ok', show(p.eval(act[1])))
                 names = ({'x9': float('inf')} if nk == 'fresh' else (None if nk == 'none' else self.pers[nk]))
                 kw = {}
                 if act[3] is not None:
@@ -199,6 +246,9 @@ class World:
             g = p.list_names(act[1])
             if mode == 'unstarted':
                 return ('ok', 'generator')
+            if mode == 'deferred':
+                self.pending.append(g)      # consumed, in full, after the next call (or at the end of the history)
+                return ('ok', 'deferred')
             if mode == 'abandon1':
                 first = next(g, None)
                 g.close() if hasattr(g, 'close') else None
@@ -261,6 +311,11 @@ def run_history(res, hist, check_all=False):
                 res.violation(f'names:{_sig(act)}', 'persistent names mappings evolve differently on a used parser',
                               {'history': [list(map(_j, a)) for a in hist[:i + 1]], 'expected': B.pers_state()[:400], 'observed': A.pers_state()[:400]})
                 return None, False
+    da, db = A.drain(), B.drain()
+    if da != db:
+        res.violation(f'deferred-names:{_sig(hist[-1])}', 'a list_names result consumed after it was obtained differs from the one of a fresh parser',
+                      {'history': [list(map(_j, a)) for a in hist], 'expected': repr(db)[:400], 'observed': repr(da)[:400]})
+        return None, False
     if last_exc:
         for act in BATTERY:
             ra = A.call(act)
@@ -370,6 +425,8 @@ def deep_actions():
             keep.append(i)
         elif a[0] == 'eval' and a[1] in ('1 + 2', '(1', 'f = v => v + u', 'f(1)', 'map(l, v => v + u)', 'u', 'x', 'total = 41\nboost = = 2',
                                          'total + 1', 'x += 1', '1 + 1 + 1 + 1') and a[2] in ('fresh', 'P'):
+            keep.append(i)
+        elif a[0] == 'eval' and a[2] == 'omitted' and a[1] in ('x = 1', 'x', 'len = 7; len', 'len("ab")'):
             keep.append(i)
         elif a[0] == 'names' and a[1] in ('price * qty + fee(region)', 'alpha + beta ? gamma', 'a\n(b,\nc'):
             keep.append(i)
